@@ -10,7 +10,7 @@ VERIF = os.path.dirname(os.path.dirname(os.path.abspath(__file__)))
 
 BOUNDED = {
  'C01': ('Display / from_str round trip (Display is write!-based, the grammar is nom: outside the verifier)',
-         'the corpus of ~370 D-symbols (8 parsed, the rest pseudo-random involution tables of size <= 8, dimension <= 3, fixed seed): print, parse, compare; '
+         'the corpus of ~370 D-symbols (8 parsed, the rest pseudo-random involution tables of size <= 8, dimension <= 3, fixed seed): print, parse, compare; symbols with one (0,1)-orbit on 512, 600 and 1024 chambers and one-chamber symbols of dimension 256, 300 and 1000 (built through the API, printed, parsed back); '
          'plus ~2300 malformed strings (hand-written corner cases incl. decimal numbers beyond 64 bits at every position, rejected texts with multi-byte characters at every distance from the start, headers with counters 0, and single-character edits of valid text): no panic, Ok => involutions and degrees multiples of r'),
  'C02': ('Traversal, orbit, orbit_reps, is_connected, is_loopless, is_weakly_oriented, is_oriented (stateful iterator over BTreeMap/VecDeque/HashSet: outside the verifier)',
          'the same corpus; ALL index lists in ascending and descending order plus two mixed ones; all seeds (orbit_reps also with the seeds in descending and rotated order): orbit = reachable set, one representative per component, '
